@@ -9,6 +9,8 @@ import (
 	"math"
 
 	"go.opentelemetry.io/collector/pdata/pcommon"
+	"go.opentelemetry.io/collector/pdata/plog"
+	"go.opentelemetry.io/collector/pdata/pmetric"
 	"go.opentelemetry.io/collector/pdata/ptrace"
 )
 
@@ -318,4 +320,264 @@ func (g *OGen) Traces(sh TShape) ptrace.Traces {
 		}
 	}
 	return td
+}
+
+// ---------------------------------------------------------------- logs
+
+func (g *OGen) LogRecord(lr plog.LogRecord) {
+	lr.SetTimestamp(g.ts())
+	if g.r.Chance(50) {
+		lr.SetObservedTimestamp(g.ts())
+	}
+	if g.r.Chance(50) {
+		lr.SetTraceID(g.traceID())
+		lr.SetSpanID(g.spanID())
+	}
+	lr.SetSeverityNumber(plog.SeverityNumber(g.r.Intn(25)))
+	if g.r.Chance(50) {
+		lr.SetSeverityText(g.str())
+	}
+	g.Value(lr.Body(), 2)
+	g.Attrs(lr.Attributes(), 4)
+	if g.r.Chance(20) {
+		lr.SetDroppedAttributesCount(uint32(g.r.Intn(3)))
+	}
+	if g.r.Chance(30) {
+		lr.SetFlags(plog.LogRecordFlags(g.r.Intn(3)))
+	}
+}
+
+func (g *OGen) Logs(sh TShape) plog.Logs {
+	ld := plog.NewLogs()
+	nr := g.r.Intn(sh.MaxRes + 1)
+	var shared pcommon.InstrumentationScope
+	haveShared := false
+	for i := 0; i < nr; i++ {
+		rl := ld.ResourceLogs().AppendEmpty()
+		g.Resource(rl.Resource())
+		rl.SetSchemaUrl(g.schemaURL())
+		ns := g.r.Intn(sh.MaxScopes + 1)
+		for j := 0; j < ns; j++ {
+			sl := rl.ScopeLogs().AppendEmpty()
+			if haveShared && g.r.Chance(40) {
+				shared.CopyTo(sl.Scope()) // the same scope under different resources
+			} else {
+				g.Scope(sl.Scope())
+				shared = sl.Scope()
+				haveShared = true
+			}
+			sl.SetSchemaUrl(g.schemaURL())
+			n := g.r.Intn(sh.MaxSpans + 1)
+			for k := 0; k < n; k++ {
+				g.LogRecord(sl.LogRecords().AppendEmpty())
+			}
+		}
+	}
+	return ld
+}
+
+// ---------------------------------------------------------------- metrics
+
+func (g *OGen) exemplars(es pmetric.ExemplarSlice) {
+	n := g.r.Intn(3)
+	if g.r.Chance(60) {
+		n = 0
+	}
+	for i := 0; i < n; i++ {
+		e := es.AppendEmpty()
+		e.SetTimestamp(g.ts())
+		switch g.r.Intn(3) {
+		case 0:
+			e.SetIntValue(g.i64())
+		case 1:
+			e.SetDoubleValue(g.f64())
+		}
+		if g.r.Chance(50) {
+			e.SetTraceID(g.traceID())
+			e.SetSpanID(g.spanID())
+		}
+		g.Attrs(e.FilteredAttributes(), 2)
+	}
+}
+
+func (g *OGen) u64() uint64 {
+	switch g.r.Intn(5) {
+	case 0:
+		return 0
+	case 1:
+		return 1
+	case 2:
+		return math.MaxUint64
+	default:
+		return uint64(g.r.Intn(1000))
+	}
+}
+
+func (g *OGen) counts() []uint64 {
+	switch g.r.Intn(5) {
+	case 0:
+		return nil
+	case 1:
+		return []uint64{0, 0}
+	case 2:
+		return []uint64{0}
+	default:
+		n := 1 + g.r.Intn(4)
+		out := make([]uint64, n)
+		for i := range out {
+			out[i] = g.u64()
+		}
+		return out
+	}
+}
+
+func (g *OGen) bounds() []float64 {
+	switch g.r.Intn(5) {
+	case 0:
+		return nil
+	case 1:
+		return []float64{0}
+	default:
+		n := 1 + g.r.Intn(3)
+		out := make([]float64, n)
+		for i := range out {
+			out[i] = g.f64()
+		}
+		return out
+	}
+}
+
+func (g *OGen) Metric(m pmetric.Metric, maxPts int) {
+	m.SetName(g.str())
+	if g.r.Chance(50) {
+		m.SetDescription(g.str())
+	}
+	if g.r.Chance(50) {
+		m.SetUnit([]string{"", "ms", "By"}[g.r.Intn(3)])
+	}
+	np := g.r.Intn(maxPts + 1)
+	tempo := func() pmetric.AggregationTemporality { return pmetric.AggregationTemporality(g.r.Intn(3)) }
+	ndp := func(p pmetric.NumberDataPoint) {
+		g.Attrs(p.Attributes(), 3)
+		if g.r.Chance(60) {
+			p.SetStartTimestamp(g.ts())
+		}
+		p.SetTimestamp(g.ts())
+		switch g.r.Intn(3) {
+		case 0:
+			p.SetIntValue(g.i64())
+		case 1:
+			p.SetDoubleValue(g.f64())
+		}
+		if g.r.Chance(30) {
+			p.SetFlags(pmetric.DataPointFlags(g.r.Intn(2)))
+		}
+		g.exemplars(p.Exemplars())
+	}
+	switch g.r.Intn(6) {
+	case 0:
+		gg := m.SetEmptyGauge()
+		for i := 0; i < np; i++ {
+			ndp(gg.DataPoints().AppendEmpty())
+		}
+	case 1:
+		s := m.SetEmptySum()
+		s.SetAggregationTemporality(tempo())
+		s.SetIsMonotonic(g.r.Bool())
+		for i := 0; i < np; i++ {
+			ndp(s.DataPoints().AppendEmpty())
+		}
+	case 2:
+		h := m.SetEmptyHistogram()
+		h.SetAggregationTemporality(tempo())
+		for i := 0; i < np; i++ {
+			p := h.DataPoints().AppendEmpty()
+			g.Attrs(p.Attributes(), 3)
+			p.SetStartTimestamp(g.ts())
+			p.SetTimestamp(g.ts())
+			p.SetCount(g.u64())
+			if g.r.Chance(60) {
+				p.SetSum(g.f64())
+			}
+			if g.r.Chance(40) {
+				p.SetMin(g.f64())
+			}
+			if g.r.Chance(40) {
+				p.SetMax(g.f64())
+			}
+			p.BucketCounts().FromRaw(g.counts())
+			p.ExplicitBounds().FromRaw(g.bounds())
+			if g.r.Chance(30) {
+				p.SetFlags(pmetric.DataPointFlags(g.r.Intn(2)))
+			}
+			g.exemplars(p.Exemplars())
+		}
+	case 3:
+		h := m.SetEmptyExponentialHistogram()
+		h.SetAggregationTemporality(tempo())
+		for i := 0; i < np; i++ {
+			p := h.DataPoints().AppendEmpty()
+			g.Attrs(p.Attributes(), 3)
+			p.SetStartTimestamp(g.ts())
+			p.SetTimestamp(g.ts())
+			p.SetCount(g.u64())
+			p.SetScale(int32(g.r.Intn(5)) - 2)
+			p.SetZeroCount(g.u64())
+			if g.r.Chance(60) {
+				p.SetSum(g.f64())
+			}
+			if g.r.Chance(40) {
+				p.SetMin(g.f64())
+			}
+			if g.r.Chance(40) {
+				p.SetMax(g.f64())
+			}
+			p.Positive().SetOffset(int32(g.r.Intn(5)) - 2)
+			p.Positive().BucketCounts().FromRaw(g.counts())
+			p.Negative().SetOffset(int32(g.r.Intn(5)) - 2)
+			p.Negative().BucketCounts().FromRaw(g.counts())
+			g.exemplars(p.Exemplars())
+		}
+	case 4:
+		s := m.SetEmptySummary()
+		for i := 0; i < np; i++ {
+			p := s.DataPoints().AppendEmpty()
+			g.Attrs(p.Attributes(), 3)
+			p.SetStartTimestamp(g.ts())
+			p.SetTimestamp(g.ts())
+			p.SetCount(g.u64())
+			p.SetSum(g.f64())
+			nq := g.r.Intn(3)
+			for q := 0; q < nq; q++ {
+				qv := p.QuantileValues().AppendEmpty()
+				qv.SetQuantile(float64(g.r.Intn(5)) / 4)
+				qv.SetValue(g.f64())
+			}
+			if g.r.Chance(30) {
+				p.SetFlags(pmetric.DataPointFlags(g.r.Intn(2)))
+			}
+		}
+	default: // empty metric
+	}
+}
+
+func (g *OGen) Metrics(sh TShape) pmetric.Metrics {
+	md := pmetric.NewMetrics()
+	nr := g.r.Intn(sh.MaxRes + 1)
+	for i := 0; i < nr; i++ {
+		rm := md.ResourceMetrics().AppendEmpty()
+		g.Resource(rm.Resource())
+		rm.SetSchemaUrl(g.schemaURL())
+		ns := g.r.Intn(sh.MaxScopes + 1)
+		for j := 0; j < ns; j++ {
+			sm := rm.ScopeMetrics().AppendEmpty()
+			g.Scope(sm.Scope())
+			sm.SetSchemaUrl(g.schemaURL())
+			n := g.r.Intn(sh.MaxSpans + 1)
+			for k := 0; k < n; k++ {
+				g.Metric(sm.Metrics().AppendEmpty(), 3)
+			}
+		}
+	}
+	return md
 }
